@@ -333,7 +333,11 @@ class Check:
     def write_replay(self, n, payload):
         os.makedirs(REPLAY, exist_ok=True)
         path = os.path.join(REPLAY, "%s-%d.json" % (self.pid, n))
-        json.dump(payload, open(path, "w"), indent=1)
+        def dflt(o):
+            if isinstance(o, (bytes, bytearray)):
+                return "x" + bytes(o[:4096]).hex() + ("...(%d bytes)" % len(o) if len(o) > 4096 else "")
+            return str(o)[:2000]
+        json.dump(payload, open(path, "w"), indent=1, default=dflt)
         return os.path.relpath(path, ROOT)
 
     def main(self):
